@@ -317,6 +317,48 @@ impl Monitor for C13 {
                     }
                 }
             }
+            // inputs that are one bare literal, of every length from 1 to 45 digits and several digit
+            // patterns (trailing zeros, leading zeros, all nines, random) with the point in sampled positions:
+            // an entry point that special-cases whole-input literals answers differently from the same
+            // literal in brackets, behind a prefix + or next to a blank (seeded change C13-r9b, written for
+            // C19: a bare 30-character literal rejected by eval_decimal)
+            {
+                let z = Val::zero(ev);
+                let mut rr = ctx.rng(&format!("bare-literals/{}", ev.name()), 0);
+                for n in 1..=45usize {
+                    let pats: Vec<String> = vec![
+                        "5".repeat(n),
+                        format!("8{}", "0".repeat(n - 1)),
+                        format!("{}{}", "0".repeat(n / 2), "7".repeat(n - n / 2)),
+                        (0..n).map(|_| char::from(b'0' + rr.below(10) as u8)).collect(),
+                        format!("85{}", "0".repeat(n.saturating_sub(2))).chars().take(n).collect(),
+                    ];
+                    for d in pats {
+                        let mut positions: Vec<usize> = vec![0, 1, n / 2, n.saturating_sub(1), n];
+                        positions.extend([2usize, 4].iter().filter(|p| **p < n));
+                        positions.sort();
+                        positions.dedup();
+                        for p in positions {
+                            let mut lit = d.clone();
+                            lit.insert(p.min(n), '.');
+                            if ev == Ev::I64 {
+                                lit = d.clone();
+                            }
+                            for (kind, t) in [("redundant-brackets", format!("({})", lit)), ("prefix-plus", format!("+{}", lit)), ("whitespace", format!(" {}", lit)), ("whitespace", format!("{}\u{a0}", lit))] {
+                                if ctx.mine() {
+                                    ctx.check(&Case::pair(ev, kind, &lit, z, &t, z).with_extra("bare literal"), &|c, st| {
+                                        let v = self.judge(c, st);
+                                        if let Verdict::Pass { .. } = v {
+                                            st.inc("bare_literals_equal");
+                                        }
+                                        v
+                                    });
+                                }
+                            }
+                        }
+                    }
+                }
+            }
             // the same rewrite applied many times over: k redundant bracket pairs, k prefix signs, k
             // nested floor( ) against k nested ⌊ ⌋, k nested mod( , ) against k nested (( )%( )), k
             // white-space characters; counts around the powers of two (repetitions())
